@@ -155,8 +155,11 @@ class MultiTanProcessor(object):
 
         # We can now compute the global properties of the tiled TAN representation:
 
-        width = int(global_crxmax - global_crxmin) + 1
-        height = int(global_crymax - global_crymin) + 1
+        # The inputs share one pixel grid, so these differences are whole numbers
+        # of pixels -- but only up to floating-point roundoff when the CRPIX
+        # values are not exactly representable. Round rather than truncate.
+        width = int(np.round(global_crxmax - global_crxmin)) + 1
+        height = int(np.round(global_crymax - global_crymin)) + 1
         self._tiling = StudyTiling(width, height)
 
         ref_headers["CRPIX1"] = this_crpix1 + 1 + (mtdesc.crxmin - global_crxmin)
@@ -173,10 +176,10 @@ class MultiTanProcessor(object):
         self._n_todo = 0
 
         for desc in self._descs:
-            desc.imin = int(np.floor(desc.crxmin - global_crxmin))
-            desc.imax = int(np.ceil(desc.crxmax - global_crxmin))
-            desc.jmin = int(np.floor(desc.crymin - global_crymin))
-            desc.jmax = int(np.ceil(desc.crymax - global_crymin))
+            desc.imin = int(np.round(desc.crxmin - global_crxmin))
+            desc.imax = int(np.round(desc.crxmax - global_crxmin))
+            desc.jmin = int(np.round(desc.crymin - global_crymin))
+            desc.jmax = int(np.round(desc.crymax - global_crymin))
 
             # Compute the sub-tiling now so that we can count how many total
             # tiles we'll need to process.
